@@ -1202,7 +1202,8 @@ class CSSSerializer:
         else:
             out = Out(self)
             v = variable.value
-            if self.prefs.resolveVariables and v:
+            # the value used for validation is always the resolved one
+            if (self.prefs.resolveVariables or self._valuesOnly) and v:
                 # resolve variable
                 out.append(v)
 
